@@ -140,6 +140,11 @@ def init (loc : Triple) (tracking hold : Bool) (now : Nat) : St :=
 def trace (s0 : St) (v r T : Nat) (es : List Ev) : List Out :=
   (step s0 (.call v r T)).2 ++ (run (step s0 (.call v r T)).1 es).2
 
+/-- `retries` as the loop sees it (`if retries <= 0: return False`): a negative budget is an exhausted budget.
+(The statement of C08 speaks about "at most `retries`" transmissions, i.e. about budgets ≥ 0; the driver reads a
+negative `retries` of a call token through this function.) -/
+def budgetOf (r : Int) : Nat := r.toNat
+
 /-- defaults of `Parameter.set` as read from the source by the translator -/
 def defaultRetries : Nat := Gen.parameterSetRetries
 def defaultTimeoutMs : Nat := Gen.parameterSetTimeoutMs
